@@ -727,6 +727,36 @@ def run(ck):
             else:
                 ck.broken.append({"what": "exhaustive 5-node run gave no summary"})
             cases += ex
+    # conc: 8 goroutines, each checking ONLY its own graphs (rings, rings with a chord, a DAG laid out both
+    # ways) at the same time; every result judged against the caller's own graph.  Once more under the race
+    # detector (fewer rounds).
+    if binp:
+        for race in (False, True):
+            b2 = ck.build_harness("c19", race=True) if race else binp
+            if not b2:
+                continue
+            rounds = 4 if race else (40 if not ck.thorough else 200)
+            rc, out, err = vlib.sh2([b2, "-conc", "8", "-rounds", str(rounds)], timeout=600)
+            n = 0
+            for line in out.splitlines():
+                if not line.startswith("{"):
+                    continue
+                r = json.loads(line)
+                n += 1
+                ck.count("conc-race" if race else "conc", key=("conc", race, r["worker"], r["graph"]))
+                if r.get("fail"):
+                    key = {"cycle-not-in-graph": "impl:conc-cycle-not-in-graph", "panic": "impl:conc-panic",
+                           "verdict": "impl:conc-verdict"}.get(r["fail"], "impl:conc-" + r["fail"])
+                    ck.violation(key, "goroutine %d, checking only its own graph %s while 7 others check theirs: %s"
+                                 % (r["worker"], r["graph"], r.get("detail", "")[:300]),
+                                 {"stream": "conc", "worker": r["worker"], "graph": r["graph"], "rounds": r["rounds"],
+                                  "replay": "%s -conc 8 -rounds %d" % (os.path.basename(b2), rounds), "detail": r.get("detail")})
+            if race and ("DATA RACE" in err or rc == 66):
+                ck.violation("impl:data-race", "the race detector reports a data race between goroutines that each check "
+                             "only their own graph", {"race_report": err[err.find("WARNING: DATA RACE"):][:1800],
+                                                      "replay": "c19-race -conc 8 -rounds %d" % rounds})
+            elif rc != 0 and not n:
+                ck.broken.append({"what": "conc harness run failed", "race": race, "detail": err[-1200:]})
     ck.log("harness: %d cases" % len(cases))
 
     # implementation-only oracle (also the search for a failing input)
